@@ -4,7 +4,7 @@
   yash-fnmatch/src/ast/regex.rs on every run, so editing either constant re-checks (and can break)
   `meta_subset`, `escape_roundtrip` and `toRegex_correct`.
 -/
-import YashModel.Fnmatch.Proofs
+import YashModel.Fnmatch.DefinedLemmas
 
 namespace YashModel.Fnmatch
 open YashModel.Generated.FnmatchTables
@@ -136,6 +136,70 @@ example :
     (Pattern.fromAst [.bracket ⟨false, [.range (.cls "digit".toList) (.char '9')]⟩] caseConfig).toOption.isNone ∧
     (Pattern.fromAst [.bracket ⟨false, [.atom (.collating [])]⟩] caseConfig).toOption.isNone := by
   decide
+
+
+/-! ## ★ prefix and suffix removal delete exactly the shortest / longest matching prefix / suffix -/
+
+/-- `find_is_extremal` (design ☆, now proved).  Hypothesis `noMulti ast`: no bracket contains a
+    multi-character collating element (`[.ab.]`) — the patterns POSIX defines for the POSIX locale; with such
+    elements the alternation order, not the length, decides (second example below).
+    For a compiled pattern of trim form `#`/`##`/`%`/`%%` the search `trim_value` runs (`rfind` for `%`, `find`
+    otherwise; greedy or `swap_greed`; regex or literal fast path) returns exactly the range `0..k` with `k`
+    the least/greatest matching prefix length, resp. `a..len` with `a` the greatest/least matching suffix
+    start, and `none` when nothing matches. -/
+theorem find_is_extremal (ast : Ast) (hn : noMulti ast = true) (side : TrimSide) (len : TrimLength)
+    (p : Pattern) (h : Pattern.fromAst ast (trimConfig side len) = .ok p) (v : List Char) :
+    trimSearch p v = specRange side len ast v :=
+  Proofs.find_is_extremal ast hn side len p h v
+
+/-- ★ hence `trim_value` = the Spec's shortest/longest prefix/suffix removal -/
+theorem trim_correct (ast : Ast) (hn : noMulti ast = true) (side : TrimSide) (len : TrimLength)
+    (p : Pattern) (h : Pattern.fromAst ast (trimConfig side len) = .ok p) (v : List Char) :
+    trimValue p v = specTrim side len ast v :=
+  Proofs.trim_correct ast hn side len p h v
+
+/-- non-vacuity: `*a` against `banana`: `%` removes `a`, `%%` everything, `#` `ba`, `##` everything -/
+example :
+    let ast : Ast := [.anyString, .char 'a']
+    noMulti ast = true ∧
+    ([(TrimSide.prefix, TrimLength.shortest), (.prefix, .longest), (.suffix, .shortest), (.suffix, .longest)].all
+      (fun x => (Pattern.fromAst ast (trimConfig x.1 x.2)).toOption.isSome) = true) ∧
+    [specTrim .suffix .shortest ast "banana".toList, specTrim .suffix .longest ast "banana".toList,
+     specTrim .prefix .shortest ast "banana".toList, specTrim .prefix .longest ast "banana".toList]
+      = ["banan".toList, [], "nana".toList, []] := by decide
+
+/-- the hypothesis is necessary: for `[a[.ab.]]` (alternation `(?:[a]|ab)`) `##` on `ab` removes only `a` -/
+example :
+    let ast : Ast := [.bracket ⟨false, [.atom (.char 'a'), .atom (.collating ['a', 'b'])]⟩]
+    noMulti ast = false ∧
+    (match Pattern.fromAst ast (trimConfig .prefix .longest) with
+     | .ok p => some (trimValue p "ab".toList)
+     | .error _ => none) = some "b".toList ∧
+    specTrim .prefix .longest ast "ab".toList = [] := by decide
+
+/-! ## ★ patterns inside the defined notation always compile -/
+
+/-- ★ Converse of `invalid_pattern_fallbacks`: a syntax tree with defined class names, no class as range
+    bound, no empty symbol, no inverted range (and no empty bracket, which the parser never produces) compiles
+    under every configuration — the fallbacks can only ever hit patterns outside the defined notation. -/
+theorem defined_compiles (ast : Ast) (h : astDefined ast = true) (cfg : Config) :
+    ∃ p, Pattern.fromAst ast cfg = .ok p :=
+  Proofs.defined_compiles ast h cfg
+
+/-- ★ so for defined patterns without multi-character elements the shell-level trim is the Spec's -/
+theorem trimApply_correct (pcs : List PatternChar) (hd : astDefined (parseAtoms pcs) = true)
+    (hn : noMulti (parseAtoms pcs) = true) (side : TrimSide) (len : TrimLength) (v : List Char) :
+    trimApply side len pcs v = specTrim side len (parseAtoms pcs) v := by
+  obtain ⟨p, hp⟩ := defined_compiles (parseAtoms pcs) hd (trimConfig side len)
+  unfold trimApply Pattern.parse
+  rw [hp]
+  exact trim_correct (parseAtoms pcs) hn side len p hp v
+
+/-- non-vacuity: `[![:digit:]x-z]*[[.-.]]` is defined and has no multi-character element -/
+example :
+    let ast : Ast := [.bracket ⟨true, [.atom (.cls "digit".toList), .range (.char 'x') (.char 'z')]⟩, .anyString,
+      .bracket ⟨false, [.atom (.collating ['-'])]⟩]
+    astDefined ast = true ∧ noMulti ast = true := by decide
 
 /-! ## ★ `case` runs the first item with a matching pattern -/
 
